@@ -4,9 +4,14 @@ PROP = {
             "every chunk queued beforehand, several recvLine calls per buffer: captured strings of buffer_test.go / transfer_test.go with "
             "random chunkings; renderings from a Go generator that mirrors the constructors of the noise relations (tmux: junk in front, "
             "status pairs also inside the marker, truncated status, CR LF wraps of any multiplicity; Windows: padding, VT100, newlines, "
-            "cursor moves, re-prints, cursor-home) incl. every insertion position of each single kind on a fixed line; malformed byte soup "
+            "cursor moves, re-prints, cursor-home) incl. every insertion position of each single kind on a fixed line; tmux status redraws "
+            "(the real one, a minimal, a long, a random one, two adjacent, two apart, plus a truncated one at the end) at EVERY offset of "
+            "#DATA lines with 0..120 (quick) / 250 payload bytes, with nothing / a prompt / half a redraw in front, long lines wrapped, "
+            "directly through stripTmuxStatusLine and through recvLine in every chunking class (whole, boundary inside and behind the "
+            "control string, 1-byte, random), and behind 0..130 bytes of plain text; malformed byte soup "
             "and every sequence of up to 5 (quick) / 6 state-machine tokens; direct oracle: documented noise => exactly '#ty:payload' "
-            "returned, Ctrl-C => Interrupted; every case is non-trivial except noise-free strip_tmux inputs; distinct = distinct input line",
+            "returned, stripTmuxStatusLine gives back the text the redraws were inserted into, Ctrl-C => Interrupted; every real call runs "
+            "under a guard: a call that does not return within 6 s is reported with its input and ends the run with what was found so far; every case is non-trivial except noise-free strip_tmux inputs; distinct = distinct input line",
     "trusted": ["which byte patterns tmux and the Windows console really emit is taken from the captured strings in the test-suite and the comments in the code (the noise relations of Model/Noise.v state them precisely)"],
     "assumptions": ["payload and type contain no LF, CR, Ctrl-C, ESC, '#' (tmux) / are protocol letters without '#' in the payload (Windows)",
                     "tmux: text in front of the line does not contain the marker '#ty:' and no bare LF; status texts contain no '#', CR, LF",
